@@ -25,7 +25,10 @@
 //	    take the address are listed with kind "addr"), function values, reflection, other packages.
 //	(b) every sync.Pool Get site with the pooled struct type, the full field list of that struct and
 //	    the set of fields assigned before the first read/escape of the object on the straight-line
-//	    path after the Get (`*x = …` counts as all fields); plus all Put sites.
+//	    path after the Get (`*x = …` counts as all fields); plus all Put sites with the loops that
+//	    enclose them and whether they lie in the function's RELEASE TAIL: the trailing top-level
+//	    statements (before the final return) that do nothing but Put — an object is given back only
+//	    when the function has no statement left that could still use it.
 package main
 
 import (
@@ -97,6 +100,14 @@ type getSite struct {
 	initPos                 []string // positions of the initialising statements (where the object is overwritten)
 }
 
+// putSite: one pool.Put call with the loops around it and whether it lies in the function's release
+// tail (the trailing top-level statements that do nothing but Put, before the final return)
+type putSite struct {
+	pool, fn, pos, arg string
+	loops              []string
+	inTail             bool
+}
+
 type pkgInfo struct {
 	name, dir string
 	fset      *token.FileSet
@@ -113,7 +124,7 @@ type pkgInfo struct {
 	multi     map[string]bool // function / method names with more than one result
 	onces     []string
 	gets      []getSite
-	puts      []site
+	puts      []putSite
 	poolFuncs map[string]bool // "file:from:to:name" of functions containing a Get or Put
 }
 
@@ -921,7 +932,25 @@ func (p *pkgInfo) pools() {
 				if len(call.Args) == 1 {
 					arg = p.render(call.Args[0])
 				}
-				p.puts = append(p.puts, site{fn: u.display, pos: p.pos(call), kind: v.name + " <- " + arg})
+				ps := putSite{pool: p.name + "." + v.name, fn: u.display, pos: p.pos(call), arg: arg}
+				for _, a := range stack {
+					switch l := a.(type) {
+					case *ast.ForStmt:
+						h := "for"
+						if l.Cond != nil {
+							h += " " + p.render(l.Cond)
+						}
+						ps.loops = append(ps.loops, h)
+					case *ast.RangeStmt:
+						ps.loops = append(ps.loops, "range "+p.render(l.X))
+					}
+				}
+				if len(stack) >= 2 {
+					if top, ok := stack[1].(ast.Stmt); ok {
+						ps.inTail = p.releaseTail(u.body)[top]
+					}
+				}
+				p.puts = append(p.puts, ps)
 			case "Get":
 				g := getSite{pool: v.name, fn: u.display, pos: p.pos(call), typ: "?", obj: "?", stop: "get result is not bound by `v := pool.Get().(*T)`"}
 				// expected shape: v := pool.Get().(*T) as a statement of a block
@@ -952,6 +981,57 @@ func (p *pkgInfo) pools() {
 			}
 		})
 	}
+}
+
+// releaseOnly: the statement does nothing but return objects to pools (Put calls, possibly inside
+// loops and if-guards without initialiser)
+func (p *pkgInfo) releaseOnly(s ast.Stmt) bool {
+	all := func(l []ast.Stmt) bool {
+		for _, x := range l {
+			if !p.releaseOnly(x) {
+				return false
+			}
+		}
+		return len(l) > 0
+	}
+	switch x := s.(type) {
+	case *ast.ExprStmt:
+		r, sel, call := selCall(x.X)
+		if call == nil || r == nil || sel != "Put" {
+			return false
+		}
+		id, ok := r.(*ast.Ident)
+		if !ok {
+			return false
+		}
+		v := p.isPkgVar(id)
+		return v != nil && v.isPool
+	case *ast.BlockStmt:
+		return all(x.List)
+	case *ast.RangeStmt:
+		return all(x.Body.List)
+	case *ast.ForStmt:
+		return x.Init == nil && x.Post == nil && all(x.Body.List)
+	case *ast.IfStmt:
+		return x.Init == nil && all(x.Body.List) && (x.Else == nil || p.releaseOnly(x.Else))
+	}
+	return false
+}
+
+// releaseTail: the trailing top-level statements of a function body that are release-only (the final
+// return statement is skipped)
+func (p *pkgInfo) releaseTail(body *ast.BlockStmt) map[ast.Stmt]bool {
+	tail := map[ast.Stmt]bool{}
+	l := body.List
+	if n := len(l); n > 0 {
+		if _, ok := l[n-1].(*ast.ReturnStmt); ok {
+			l = l[:n-1]
+		}
+	}
+	for i := len(l) - 1; i >= 0 && p.releaseOnly(l[i]); i-- {
+		tail[l[i]] = true
+	}
+	return tail
 }
 
 func exprOf(n ast.Node) ast.Expr {
@@ -1163,7 +1243,7 @@ func emit(b *bytes.Buffer, all []*pkgInfo) {
 				q(p.name), q(g.pool), q(g.typ), q(g.fn), q(g.pos), q(g.obj), qs(g.fields), qs(g.assigned), g.whole, q(g.stop), qs(g.initPos)))
 		}
 		for _, s := range p.puts {
-			ps = append(ps, fmt.Sprintf("⟨%s, %s, %s, .none⟩", q(s.fn), q(s.pos), q(s.kind)))
+			ps = append(ps, fmt.Sprintf("{ pool := %s, fn := %s, pos := %s, arg := %s, loops := %s, inTail := %v }", q(s.pool), q(s.fn), q(s.pos), q(s.arg), qs(s.loops), s.inTail))
 		}
 		var tn []string
 		for t := range p.structs {
@@ -1183,7 +1263,7 @@ func emit(b *bytes.Buffer, all []*pkgInfo) {
 		}
 	}
 	fmt.Fprintf(b, "def getSites : List GetSite := [\n  %s]\n\n", strings.Join(gs, ",\n  "))
-	fmt.Fprintf(b, "def putSites : List Site := [\n  %s]\n\n", strings.Join(ps, ",\n  "))
+	fmt.Fprintf(b, "def putSites : List PutSite := [\n  %s]\n\n", strings.Join(ps, ",\n  "))
 	fmt.Fprintf(b, "/-- field lists of the pooled struct types -/\ndef pooledStructs : List (String × List String) := [\n  %s]\n\n", strings.Join(sts, ",\n  "))
 	var pf []string
 	for _, p := range all {
